@@ -1020,10 +1020,65 @@ def stdout_reports_many_files(res):
         shutil.rmtree(d, ignore_errors=True)
 
 
+def odd_environment_reports(res):
+    """(a) a scanned file whose NAME is not valid UTF-8: the YAML report is produced, parses, and carries the records and the file name the JSON report carries (seeded
+    change C09-m17 switched to the libyaml C emitter, which cannot write the lone surrogates os.fsdecode puts into such a name: no report).  (b) a report written to a
+    standard output that is not UTF-8 (PYTHONIOENCODING=latin-1): the XML report, decoded as it declares, carries the message the JSON report carries (seeded change
+    C09-m18 wrote XML through the text stream, whose error handler turned every character outside latin-1 into a literal backslash escape)."""
+    import subprocess, sys, tempfile, shutil
+    d = tempfile.mkdtemp(prefix="bverif_c09env_")
+    boot = "import sys; sys.path[:0]=%r; from bandit.cli.main import main; main()" % ([os.environ["PYTHONPATH"].split(os.pathsep)[0], C.REPO],)
+    try:
+        bad = os.path.join(os.fsencode(d), b"caf\xe9_latin1.py")
+        with open(bad, "wb") as fh:
+            fh.write(b"import pickle\npassword = 'pw'\n")
+        outs = {}
+        for fmt in ("json", "yaml"):
+            outp = os.path.join(d, "r." + fmt)
+            pr = subprocess.run([sys.executable, "-c", boot, "-r", d, "-f", fmt, "-o", outp, "-q"], capture_output=True, timeout=300)
+            try:
+                text = open(outp, encoding="utf-8").read()
+                if fmt == "json":
+                    data = json.loads(text)
+                else:
+                    import yaml
+                    data = yaml.safe_load(text)
+                outs[fmt] = sorted((x["filename"], x["test_id"], x["line_number"], x["issue_text"]) for x in data["results"])
+            except Exception as e:
+                outs[fmt] = "no report: %s: %s | exit %s %s" % (type(e).__name__, str(e)[:100], pr.returncode, pr.stderr.decode("utf-8", "replace")[-160:])
+        res.case(("undecodable-file-name", "yaml-vs-json"), True)
+        res.count("odd-environment-reports")
+        if not isinstance(outs["json"], list) or outs["yaml"] != outs["json"] or len(outs["json"]) != 2:
+            res.violation("yaml report for a file whose name is not valid UTF-8: missing, malformed or different from the JSON report",
+                          {"file_name_bytes": "caf\\xe9_latin1.py", "json": outs["json"] if not isinstance(outs["json"], list) else [list(x) for x in outs["json"]],
+                           "yaml": outs["yaml"] if not isinstance(outs["yaml"], list) else [list(x) for x in outs["yaml"]]})
+        os.remove(bad)
+        prog = os.path.join(d, "euro.py")
+        with open(prog, "w", encoding="utf-8") as fh:
+            fh.write("password = 's\u20accret-\u30d1\u30b9-\U0001f511'\ntoken = 'caf\u00e9'\n")
+        msgs = {}
+        for fmt in ("json", "xml"):
+            pr = subprocess.run([sys.executable, "-c", boot, "-f", fmt, "-q", prog], capture_output=True, timeout=300, env=dict(os.environ, PYTHONIOENCODING="latin-1"))
+            try:
+                if fmt == "json":
+                    msgs[fmt] = sorted(x["issue_text"] for x in json.loads(pr.stdout.decode("latin-1"))["results"])
+                else:
+                    msgs[fmt] = sorted(t.find("error").get("message") for t in ET.fromstring(pr.stdout).findall("testcase"))
+            except Exception as e:
+                msgs[fmt] = "no report: %s: %s | exit %s" % (type(e).__name__, str(e)[:100], pr.returncode)
+        res.case(("latin-1-stdout", "xml-vs-json"), True)
+        res.count("odd-environment-reports")
+        if not isinstance(msgs["json"], list) or msgs["xml"] != msgs["json"] or len(msgs["json"]) != 2:
+            res.violation("XML report on a latin-1 standard output does not carry the messages the JSON report carries", {"program": open(prog, encoding="utf-8").read(), "json": msgs["json"], "xml": msgs["xml"]})
+    finally:
+        shutil.rmtree(d, ignore_errors=True)
+
+
 def run(res, ctx):
     import clirel
     _run_props(res, ctx)
     if not ctx.get("replay"):
         stdout_reports_many_files(res)
+        odd_environment_reports(res)
     # relations between runs of the command-line tool that differ in one kind of option (harness/clirel.py): the relations this property owns
     clirel.family(res, ctx, C, "C09", 150, 900)
